@@ -82,7 +82,7 @@ func verIndex(s string) int {
 }
 
 var extraFile = map[string]string{"aaa-before": "AAA-before.txt", "zzz-after": "zzz-after.so", "embeds-prefix": "libnotation-p.so",
-	"cand-before": "notation-aaa", "cand-after": "notation-zzz"}
+	"cand-before": "notation-aaa", "cand-after": "notation-zzz", "link-file": "linked.so", "link-dangling": "dangling.so", "link-cand": "notation-lnk"}
 
 func installScript(marker, name, version, metaKind, origin string) string {
 	extra := ""
@@ -141,7 +141,7 @@ func runPluginInstall() int {
 		if in.Src.Cand == "nonexec" {
 			candMode = 0644
 		}
-		if in.Src.Cand != "none" && in.Src.Cand != "misnamed" {
+		if in.Src.Cand != "none" && in.Src.Cand != "misnamed" && in.Src.Cand != "linkOnly" {
 			must(os.WriteFile(filepath.Join(src, "notation-p"), []byte(installScript(marker, "p", srcVer, in.Src.Meta, "src")), candMode))
 		}
 		if in.Src.Cand == "misnamed" {
@@ -151,8 +151,26 @@ func runPluginInstall() int {
 		if in.Src.Cand == "two" {
 			must(os.WriteFile(filepath.Join(src, "notation-zz"), []byte(installScript(marker, "zz", srcVer, "ok", "src")), 0755))
 		}
+		if in.Src.Cand == "linkOnly" {
+			// the only entry of the plugin file-name format is a symbolic link onto an executable elsewhere: not a regular file of the
+			// source directory, hence neither a candidate nor copied
+			must(os.MkdirAll(filepath.Join(caseDir, "elsewhere"), 0755))
+			writeExec(filepath.Join(caseDir, "elsewhere", "real-p"), installScript(marker, "p", srcVer, in.Src.Meta, "src"))
+			must(os.Symlink(filepath.Join(caseDir, "elsewhere", "real-p"), filepath.Join(src, "notation-p")))
+		}
 		for _, f := range in.Src.Extras {
-			must(os.WriteFile(filepath.Join(src, extraFile[f]), []byte("extra # origin: src\n"), 0644))
+			switch f {
+			case "link-file", "link-cand":
+				// a symbolic link among the source's files: onto a data file / named like a plugin and onto an executable
+				must(os.MkdirAll(filepath.Join(caseDir, "elsewhere"), 0755))
+				target := filepath.Join(caseDir, "elsewhere", "target-"+f)
+				must(os.WriteFile(target, []byte("#!/bin/sh\nexit 7 # origin: linked\n"), 0755))
+				must(os.Symlink(target, filepath.Join(src, extraFile[f])))
+			case "link-dangling":
+				must(os.Symlink(filepath.Join(caseDir, "elsewhere", "nothing-here"), filepath.Join(src, extraFile[f])))
+			default:
+				must(os.WriteFile(filepath.Join(src, extraFile[f]), []byte("extra # origin: src\n"), 0644))
+			}
 		}
 		if in.Src.Subdir {
 			// a sub-directory (never installed): named anything, or like the source directory itself
@@ -168,15 +186,23 @@ func runPluginInstall() int {
 				pluginPath = filepath.Join(src, "backup-notation-p")
 			}
 		}
+		// the source (and the plugin root below) are given under some spelling of their paths: literal, through a symbolic link,
+		// with dot elements, relative - which directory it is decides, not how it was written
+		srcGiven := spell(src, filepath.Join(caseDir, "src-link"), mix(*flagSeed, c.ID, "spell-src"))
 		if in.Src.Loc == "installed" {
 			// the installed plugin offered as its own source
-			pluginPath = filepath.Join(root, "p")
+			srcGiven = spell(filepath.Join(root, "p"), filepath.Join(caseDir, "installed-link"), mix(*flagSeed, c.ID, "spell-src"))
+		}
+		if pluginPath == src || in.Src.Loc == "installed" {
+			pluginPath = srcGiven
 			if in.Src.Shape == "file" {
-				pluginPath = filepath.Join(root, "p", "notation-p")
+				pluginPath = strings.TrimSuffix(srcGiven, "/") + "/notation-p" // (not filepath.Join: it would clean the spelling away)
 			}
+		} else {
+			pluginPath = strings.TrimSuffix(srcGiven, "/") + "/" + filepath.Base(pluginPath)
 		}
 		bystBefore := snapTree(filepath.Join(root, "q"))
-		mgr := plugin.NewCLIManager(dir.NewSysFS(root))
+		mgr := plugin.NewCLIManager(dir.NewSysFS(spell(root, filepath.Join(caseDir, "root-link"), mix(*flagSeed, c.ID, "spell-root"))))
 		ctx := context.Background()
 		obs := InstObs{Files: []string{}, Intact: true, ReportedNew: -1, ReportedOld: -1}
 		panicked, msg := guarded(func() {
